@@ -471,7 +471,9 @@ def make_grid(name):
     if kind == "uniform":
         return UniformGrid(**kw)
     if kind == "geom":
-        return GeometricGrid(opts.get("g", 2), local=opts.get("local", False), **kw)
+        if "local" in opts:
+            kw["local"] = opts["local"]        # otherwise the library's own default (global growth factor) is exercised
+        return GeometricGrid(opts.get("g", 2), **kw)
     if kind == "free":
         return FreeGrid(**kw)
     if kind == "function":
